@@ -48,6 +48,8 @@ class Sort:
             return f"Optional[{self.args[0]}]"
         if self.kind == "tuple":
             return "tuple[" + ",".join(str(a) for a in self.args) + "]"
+        if self.kind == "dict":
+            return f"dict[{self.args[0]},{self.args[1]}]"
         return self.name or self.kind
 
 
@@ -164,6 +166,8 @@ class SortUniverse:
             dt.declare(f"mk_{s.name}", *[(f"{s.name}__{f}", self.z3sort(fs)) for f, fs in decl.fields])
             r = dt.create()
             r.mk = r.constructor(0)
+        elif k == "dict":
+            r = z3.ArraySort(self.z3sort(s.args[0]), self.z3sort(OPT(s.args[1])))
         elif k == "opaque":
             if s.name not in self._opaque:
                 self._opaque[s.name] = z3.DeclareSort(f"Opq_{s.name}")
@@ -225,6 +229,8 @@ class Piece:
             return self.hi - self.lo
         if self.kind == "rep":
             return self.hi
+        if self.kind == "reps":  # a literal unit of several elements repeated `hi` times
+            return self.hi * len(self.items)
         return z3.IntVal(len(self.items))
 
 
